@@ -36,7 +36,73 @@ class C18(InterpProp):
     BOX = ("\n(event.box.append(1) if getattr(event, 'box', None) is not None else None)"
            "\ny = y + (len(event.box) if getattr(event, 'box', None) is not None else 0)")
 
+    def pair_case(self, rnd, tier):
+        """an interpreter bound to another one (`bind`): the snapshot continues like the original, and what it sends
+        no longer reaches the interpreter the original was bound to (taking a snapshot disturbs nothing)"""
+        from .c05 import sink_chart
+        kn = gen.Knobs(sends=0.6, max_states=rnd.choice([5, 8, 11]), p_history=0.0, contracts=0.0)
+        sc = gen.ChartGen(rnd, kn).build()
+        sink = sink_chart()
+        ops1 = gen.gen_ops(rnd, kn, 24)
+        ops = [['create', 0, False, [], 0], ['create', 1, False, [], 0], ['bind', 0, 1],
+               ['create', 0, False, [], 0], ['create', 1, False, [], 0], ['bind', 2, 3]]
+        execs = [i for i, op in enumerate(ops1) if op[0] == 'exec']
+        at = rnd.choice(execs[1:] or execs) if execs else None
+        for i, op in enumerate(ops1):
+            if i == at:
+                ops.append(['snapshot', 0, rnd.choice(['deepcopy', 'deepcopy', 'pickle'])])
+            for sl in (0, 2):
+                op2 = list(op)
+                op2[1] = sl
+                ops.append(op2)
+        tend = max([op[2] for op in ops1 if op[0] == 'exec'] + [0]) + 5
+        ops += [['execute', 1, tend, 250], ['execute', 3, tend, 250]]
+        payload = {'kind': 'interp', 'charts': [ChartEnc(sc).json, ChartEnc(sink).json], 'ops': ops, 'pair': True,
+                   'no_model': True}
+        return Case(payload, {'charts': [sc, sink]}, model_ok=False)
+
+    def pair_oracle(self, case, obs, res):
+        ops = case.payload['ops']
+        snap = next((k for k, op in enumerate(ops) if op[0] == 'snapshot'), None)
+        sent = {0: [0, 0], 2: [0, 0]}        # internal events sent before / after the snapshot, per sender
+        for k, (op, ob) in enumerate(zip(ops, obs['obs'])):
+            r = ob['r']
+            if op[0] == 'snapshot' and isinstance(r, dict) and r.get('error'):
+                res.violations.append('op %d: the snapshot (%s) of an interpreter bound to another one could not be taken: %s'
+                                      % (k, op[2], r['error']))
+                return
+            if op[0] != 'exec' or not isinstance(r, dict):
+                continue
+            if r.get('outcome') == 'error':
+                return      # (a run that ended with an exception of the statechart's code is not looked at further)
+            if r.get('outcome') == 'step':
+                n = len([e for m in r['step']['steps'] for e in m['sent'] if e['internal']])
+                sent[op[1]][0 if (snap is None or k < snap) else 1] += n
+            if op[1] == 2 and snap is not None and k > snap:
+                a = obs['obs'][k - 1]['r']
+                d = engine.diff(a, r)
+                if d:
+                    res.violations.append('op %d exec: the copied interpreter differs from the untouched one: %s' % (k, d))
+                    return
+        got = {}
+        for slot, ob in ((1, obs['obs'][-2]), (3, obs['obs'][-1])):
+            r = ob['r']
+            if not isinstance(r, dict) or r.get('err') or len(r.get('steps', [])) >= 250:
+                return
+            got[slot] = len([m for st in r['steps'] for m in st['steps'] if m['event'] is not None])
+        if snap is not None and got[1] != sent[0][0]:
+            res.violations.append('the interpreter the original was bound to consumed %d events; the original had sent %d before the '
+                                  'snapshot was taken (and %d were sent by the copy afterwards): what the copy sends is the copy\'s business'
+                                  % (got[1], sent[0][0], sent[0][1]))
+        if got[3] != sum(sent[2]):
+            res.violations.append('the interpreter bound to the untouched twin consumed %d events, the twin sent %d' % (got[3], sum(sent[2])))
+        res.features.add('bound-pair')
+        if snap is not None and sent[0][1]:
+            res.nontrivial = True
+
     def gen_case(self, rnd, tier):
+        if rnd.random() < 0.08:
+            return self.pair_case(rnd, tier)
         kn = self.knobs(rnd, tier)
         g = gen.ChartGen(rnd, kn)
         sc = g.build()
@@ -56,6 +122,18 @@ class C18(InterpProp):
         if mut:
             # context values that are mutable, some nested, changed in place and compared with __old__
             gen.add_mutables(rnd, sc, cell=False)
+        history = None
+        if not box and not mut and rnd.random() < 0.15:
+            # a statechart with a past (used, restructured through the editing API): the snapshot is a snapshot of
+            # what it is now, whatever the original object remembers of what it was
+            from ..decode import chart_from_json
+            base = ChartEnc(sc).json
+            gen.warm(sc)
+            edits = gen.plan_edits(rnd, sc, kn.wf)
+            if edits is None:
+                sc = chart_from_json(base)
+            else:
+                history = {'base': base, 'edits': edits}
         enc = ChartEnc(sc)
         ops = [['create', 0, False, [], 0], ['create', 0, False, [], 0]]
         watch = rnd.random() < 0.2
@@ -92,12 +170,16 @@ class C18(InterpProp):
                 grp.append(len(ops) - 1)
             groups.append(grp)
         payload = {'kind': 'interp', 'charts': [enc.json], 'ops': ops, 'groups': groups}
+        if history:
+            payload['history'] = history
         if rnd.random() < 0.15:
             # the interpreters' clocks are playing while the snapshot is taken (scripted real time)
             payload['running_clock'] = True
         return Case(payload, {'charts': [sc]}, model_ok=enc.supported and len(subjects) == 1 and not box and not watch and not mut)
 
     def shrink_candidates(self, case):
+        if case.payload.get('pair'):
+            return
         p = case.payload
         groups = p.get('groups')
         if not groups:
@@ -116,6 +198,8 @@ class C18(InterpProp):
             yield q
 
     def oracle(self, case, obs, res):
+        if case.payload.get('pair'):
+            return self.pair_oracle(case, obs, res)
         ops = case.payload['ops']
         groups = case.payload.get('groups') or [[k, k + 1] for k in range(2, len(ops) - 1, 2)]
         snapped = False
